@@ -399,7 +399,7 @@ class Check:
         return 0
 
 
-FATAL_SIGNALS = {4: "SIGILL", 6: "SIGABRT", 7: "SIGBUS", 8: "SIGFPE", 11: "SIGSEGV"}
+FATAL_SIGNALS = {4: "SIGILL", 6: "SIGABRT", 7: "SIGBUS", 8: "SIGFPE", 11: "SIGSEGV", -86: "an exception escaping from the code under test (std::terminate in a C++ recorder, or an exception no Python driver expects)"}
 
 
 class Crash(Exception):
